@@ -177,6 +177,10 @@ func VerifC07DumpJSON() (res string, rerr error) {
 		"QuadCoeffDiv": params.QuadCoeffDiv, "CopyGas": params.CopyGas, "LogGas": params.LogGas, "LogTopicGas": params.LogTopicGas,
 		"LogDataGas": params.LogDataGas, "Sha3Gas": params.Sha3Gas, "Sha3WordGas": params.Sha3WordGas, "SstoreSetGas": params.SstoreSetGas,
 		"SstoreResetGas": params.SstoreResetGas, "SstoreClearGas": params.SstoreClearGas, "GasFastestStep": GasFastestStep, "GasSlowStep": GasSlowStep,
+		"EcrecoverGas": params.EcrecoverGas, "Sha256BaseGas": params.Sha256BaseGas, "Sha256PerWordGas": params.Sha256PerWordGas,
+		"Ripemd160BaseGas": params.Ripemd160BaseGas, "Ripemd160PerWordGas": params.Ripemd160PerWordGas, "IdentityBaseGas": params.IdentityBaseGas,
+		"IdentityPerWordGas": params.IdentityPerWordGas, "ModExpQuadCoeffDiv": params.ModExpQuadCoeffDiv, "Bn256AddGas": params.Bn256AddGas,
+		"Bn256ScalarMulGas": params.Bn256ScalarMulGas, "Bn256PairingBaseGas": params.Bn256PairingBaseGas, "Bn256PairingPerPointGas": params.Bn256PairingPerPointGas,
 	}
 	addrList := func(keys [][20]byte) []int {
 		var out []int
